@@ -648,6 +648,26 @@ def r_ord_empty(ctx, fq):
             tab.append(all(v is True for v in vs) if all(v is not UNKNOWN for v in vs) else UNKNOWN)
         ctx.run.count('cases', 3)
         typ = _exc_type(f, nd)
+        # the count itself enters an arithmetic form with the size (a percentage, a floored ratio): one marked entry in masks of
+        # 4 .. 4^6 entries must never read as "none"
+        if vals == (0, 1, 3) and tuple(tab) == (True, False, False) and typ == 'ValueError':
+            for size in (4, 64, 256, 1024, 4096):
+                vs = []
+                for atom, pol in conds:
+                    if not any(x == rate for x in walk_term(atom)):
+                        continue
+                    v = feval(atom, lambda x: 1 if x == rate else (size if is_size(x) else UNKNOWN))
+                    vs.append(UNKNOWN if v is UNKNOWN else bool(v) == pol)
+                if vs and all(v is True for v in vs):
+                    n_witness = size
+                    run.refute('R-ORD', f, 'raise-iff-none-accepted', nd.lineno,
+                               '%s raises ValueError for a mask of %d entries with ONE entry marked: the count enters the test through an '
+                               'integer ratio that floors small positive fractions to 0' % (f.name, n_witness),
+                               inputs='sparse masks at k >= %d' % {4: 1, 64: 3, 256: 4, 1024: 5, 4096: 6}[size])
+                    tab = None
+                    break
+            if tab is None:
+                continue
         if any(v is UNKNOWN for v in tab):
             run.undecided('R-ORD', f, 'raise-iff-none-accepted', nd.lineno,
                           'the emptiness test is not evaluable for (none accepted, some accepted): %s' % (tab,))
@@ -1200,6 +1220,13 @@ def r_bfs(ctx):
                 for n_ in ast.walk(x.stmt.iter):
                     if isinstance(n_, ast.Name) and any(d.name == n_.id and d.node in body and d.kind == 'assign' for d in f.defs):
                         front = n_.id
+        def carried(name):
+            # the frontier lives across the rounds: a definition from before the loop reaches the loop head (the name exists when
+            # the loop starts); a temporary built and consumed inside one round has none
+            ds = f.reaching(nd.id, name)
+            return any(f.defs[i].node not in body for i in ds)
+        if front and not carried(front):
+            front = None
         rebind = [d for d in f.defs if front and d.name == front and d.node in body and d.kind == 'assign']
         if not front:
             # comprehension form: X = [... for v in X ...] inside the level loop
@@ -1207,7 +1234,7 @@ def r_bfs(ctx):
                 if d.node in body and d.kind == 'assign' and isinstance(d.value, (ast.ListComp, ast.Call)):
                     src = d.value
                     names = {x.id for x in ast.walk(src) if isinstance(x, ast.Name)}
-                    if d.name in names:
+                    if d.name in names and carried(d.name):
                         front, rebind = d.name, [d]
         if not front:
             # level = [... for v in FRONT ...] ; FRONT = level   (the level is built by a comprehension over the frontier)
@@ -1217,7 +1244,7 @@ def r_bfs(ctx):
                     cand = [n_.id for n_ in ast.walk(src) if isinstance(n_, ast.Name)]
                     for c_ in cand:
                         rb = [d2 for d2 in f.defs if d2.name == c_ and d2.node in body and d2.kind == 'assign']
-                        if rb:
+                        if rb and carried(c_):
                             front, rebind = c_, rb
         if not front:
             run.undecided('R-BFS', f, 'depth-loop#%d:frontier-rebound' % (i + 1), nd.lineno,
